@@ -22,7 +22,7 @@ import (
 )
 
 // c15Case: per connection a sequence of requests, each a batch of placeholder actions.
-// Actions: set | setempty | read | readorid | readexplicit | nested | clear | fail | failonce | setfail | sync
+// Actions: set | setempty | endctx | read | readorid | readexplicit | nested | clear | fail | failonce | setfail | sync
 type c15Case struct {
 	Conns  [][][]string `json:"connections"`
 	Direct bool         `json:"direct_calls"` // call HandleRequest from goroutines instead of going through a Server
@@ -40,6 +40,9 @@ type c15Case struct {
 	// item stores or observes does not depend on which operation carries it.
 	Operation string `json:"items_sent_as,omitempty"`
 }
+
+// c15CancelKey: (direct calls) the function that ends the request's context
+type c15CancelKey struct{}
 
 // c15Op is the operation in force while a case runs (one case at a time per process).
 var c15Op string
@@ -194,6 +197,11 @@ func c15Executor(b *barrier, mw string, msgMW ...string) *kmipserver.BatchExecut
 		switch action {
 		case "set":
 			kmipserver.SetIdPlaceholder(ctx, val)
+		case "endctx":
+			// ends the context of the request it belongs to (direct calls; elsewhere the key is absent and nothing happens)
+			if f, ok := ctx.Value(c15CancelKey{}).(context.CancelFunc); ok {
+				f()
+			}
 		case "setempty":
 			// the empty string is a value like any other: it is what later items observe
 			kmipserver.SetIdPlaceholder(ctx, "")
@@ -327,7 +335,7 @@ func c15Model(conn, reqIdx int, actions []string) (accept [][]string) {
 		case "set":
 			accept = append(accept, obs)
 			ph, maybe = val, false
-		case "read", "sync", "readexplicit", "nested":
+		case "read", "sync", "readexplicit", "nested", "endctx":
 			accept = append(accept, obs)
 		case "readorid":
 			if ph == "" && !maybe {
@@ -489,10 +497,16 @@ func c15Run(t *testing.T, c c15Case) (sig string, err error) {
 				defer wg.Done()
 				for ri, actions := range reqs {
 					var resp *kmip.ResponseMessage
-					if perr := safely(func() error { resp = exec.HandleRequest(context.Background(), c15Request(ci, ri, actions)); return nil }); perr != nil {
+					// the caller's context can be ended from inside a handler (action "endctx": a client that goes away, a deadline that
+					// runs out while the batch is being processed); what the items store and observe does not depend on it
+					rctx, rcancel := context.WithCancel(context.Background())
+					rctx = context.WithValue(rctx, c15CancelKey{}, rcancel)
+					if perr := safely(func() error { resp = exec.HandleRequest(rctx, c15Request(ci, ri, actions)); return nil }); perr != nil {
+						rcancel()
 						record(perr)
 						return
 					}
+					rcancel()
 					if e := c15Check(ci, ri, actions, resp); e != nil {
 						record(e)
 						return
@@ -557,7 +571,7 @@ func c15Run(t *testing.T, c c15Case) (sig string, err error) {
 
 func TestC15Placeholder(t *testing.T) {
 	const name = "TestC15Placeholder"
-	rec := evid.New("C15", name, "1..4 connections (through a real Server over an in-memory listener in a synctest bubble) or 2..6 goroutines calling HandleRequest directly, each issuing 0..2 requests that are rejected at message level (unsupported version, batch count mismatch, Undo) followed by 1..4 requests of 1..6 placeholder actions (set / set the empty string / read / read-or-id / read with an explicit identifier / forward a nested request to a back-end executor / clear / fail / set-then-fail / fail on the first run only, each item optionally carrying a non-critical message extension), the items being sent as Activate, Destroy, Archive, Recover or Revoke requests (handlers of the latter answer with the identifier they resolved, i.e. the observed placeholder itself); the executor has no batch item middleware, a pass-through one, one that turns a handler error into a successful item, or one that runs a failed item once more, and optionally a message middleware that hands on a copy of the message or that runs the batch item by item (one continuation call and one message per item, answers merged); "+
+	rec := evid.New("C15", name, "1..4 connections (through a real Server over an in-memory listener in a synctest bubble) or 2..6 goroutines calling HandleRequest directly, each issuing 0..2 requests that are rejected at message level (unsupported version, batch count mismatch, Undo) followed by 1..4 requests of 1..6 placeholder actions (set / set the empty string / end the request's context (direct calls) / read / read-or-id / read with an explicit identifier / forward a nested request to a back-end executor / clear / fail / set-then-fail / fail on the first run only, each item optionally carrying a non-critical message extension), the items being sent as Activate, Destroy, Archive, Recover or Revoke requests (handlers of the latter answer with the identifier they resolved, i.e. the observed placeholder itself); the executor has no batch item middleware, a pass-through one, one that turns a handler error into a successful item, or one that runs a failed item once more, and optionally a message middleware that hands on a copy of the message or that runs the batch item by item (one continuation call and one message per item, answers merged); "+
 		"rendezvous items inside the first request of every connection force the requests to overlap in time at chosen items; values are unique per request; oracle: per-request placeholder model (empty at start, set visible to later items, never a foreign value); "+
 		"non-trivial = set followed by read in a request that overlaps another one, or a second request on a connection after a set; distinct by case").Attach(t)
 	if rp := evid.LoadReplay(name); rp != nil {
@@ -570,7 +584,7 @@ func TestC15Placeholder(t *testing.T) {
 		}
 		return
 	}
-	actions := []string{"set", "set", "read", "read", "readorid", "readexplicit", "nested", "clear", "setempty", "fail", "setfail", "failonce"}
+	actions := []string{"set", "set", "read", "read", "readorid", "readorid", "readexplicit", "nested", "clear", "setempty", "fail", "setfail", "failonce", "endctx"}
 	rapid.Check(t, func(rt *rapid.T) {
 		c := c15Case{Direct: rapid.Bool().Draw(rt, "direct"), ItemMiddleware: rapid.SampledFrom([]string{"", "", "pass", "absorb", "retry"}).Draw(rt, "item-middleware"),
 			MessageMiddleware: rapid.SampledFrom([]string{"", "", "copy", "chunk"}).Draw(rt, "message-middleware"),
